@@ -112,6 +112,16 @@ def run_split_case(ctx, idx, rng, tmp):
             if "events" in h and len(h["events"]):
                 nonempty.append(p)
     if len(nonempty) >= 2:
+        if rng.random() < 0.5:
+            # the parts tie on date and time; rename them so that the given order is not
+            # the lexicographic order of their paths
+            renamed = []
+            for i, p in enumerate(nonempty):
+                q = p.with_name(f"part_{len(nonempty) - i:03d}_{'zyxwvu'[i % 6]}.rtdc")
+                p.rename(q)
+                renamed.append(q)
+            nonempty = renamed
+            case["parts_renamed"] = True
         try:
             out = cli.join(paths_in=nonempty, path_out=tmp / "rejoined.rtdc", ret_path=True)
             ctx.ev("task_no_exception")
@@ -218,8 +228,11 @@ def run_join_case(ctx, idx, rng, tmp):
         p = tmp / f"in{j}.rtdc"
         gd.write_model(p, sub, with_index=bool(rng.random() < 0.5))
         paths.append(p)
+    # the order in which the inputs are *given* is independent of their names and times
+    given = [paths[i] for i in rng.permutation(len(paths))]
     case = {"kind": "join", "sizes": sizes, "times": times, "removed": removed_all,
-            "features": feats_all}
+            "features": feats_all, "given_order": [p.name for p in given]}
+    paths = given
     try:
         cli.join(paths_in=paths, path_out=tmp / "joined.rtdc")
         ctx.ev("task_no_exception")
